@@ -47,7 +47,7 @@ def pointwise_ok(g, mm, ends):
 
 
 def run(ctx):
-    n = 250 if ctx.tier == "quick" else 4000
+    n = 1000 if ctx.tier == "quick" else 15000
     done = 0
     while done < n and ctx.time_left() > 5:
         batch = gen_valid_graphs(ctx, min(250, n - done), max_demes=6 if ctx.tier == "quick" else 8)
